@@ -12,15 +12,19 @@ Next == \/ i = 0 /\ i' \in {-b : b \in 1..NB}
 Spec == Init /\ [][Next]_i
 SetOf(q) == {q[k] : k \in 1..Len(q)}
 \* JSON heaps use sequences indexed by object number: identical to functions over Obj
+\* (recorded heaps carry the sets as sorted sequences: HS turns them into sets)
+HS(hp) == [hp EXCEPT !.s = [x \in Obj |-> SeqSet(hp.s[x])]]
 HeapEq(a, b) == /\ \A x \in Obj : a.child[x] = b.child[x] /\ a.kids[x] = b.kids[x] /\ a.vals[x] = b.vals[x]
                 /\ \A x \in Obj : D!WellFormed(a.d[x]) /\ D!DictEq(a.d[x], b.d[x])
+                /\ \A x \in Obj : a.s[x] = b.s[x] /\ D!WellFormed(a.dl[x]) /\ DLEq(a.dl[x], b.dl[x])
+                                   /\ a.hasx[x] = b.hasx[x] /\ a.xv[x] = b.xv[x]
 \* registrations: c.regs = sequence of [h, e, n] (handler id, expression, count > 0)
 RegOf(c, hid) == CHOOSE r \in SetOf(c.regs) : r.h = hid
 HasReg(c, hid) == \E r \in SetOf(c.regs) : r.h = hid
 \* c.calls[hid]: sequence of events <<kind, x, name>> the handler received during the step (hid = 1..NH)
 EvOf(ob) == IF ob[1] = "trait" THEN <<"trait", ob[2], ob[3]>> ELSE <<ob[1], ob[2], "">>
 MutClauses(c) ==
-  LET h == c.pre  m == c.m
+  LET h == HS(c.pre)  m == c.m
       \* registrations on an observed property: one event when a relevant change alters the computed value;
       \* a relevant change that leaves the value as it was may or may not be announced
       pbad == {r \in SetOf(c.regs) : r.e \in Props /\
@@ -35,22 +39,25 @@ MutClauses(c) ==
                    ELSE IF MayNotify(h, m) /\ exp THEN ~(got = <<>> \/ got = <<EvOf(Hit(m))>>)
                    ELSE got # <<>>}
       unreg == {k \in 1..Len(c.calls) : ~HasReg(c, k) /\ c.calls[k] # <<>>}
-  IN (IF HeapEq(Mutate(h, m), c.post) THEN {} ELSE {"C08-model-heap"})
+  IN (IF HeapEq(Mutate(h, m), HS(c.post)) THEN {} ELSE {"C08-model-heap"})
      \cup (IF bad = {} THEN {} ELSE {"C08-calls-during-change"})
      \cup (IF pbad = {} THEN {} ELSE {"C12-property-change-notification"})
      \cup (IF unreg = {} THEN {} ELSE {"C09-unregistered-handler-called"})
-ProbeClauses(c) ==     \* after the step every object's value is bumped: who is called?
-  LET h == c.post
+ProbeClauses(c) ==     \* after the step every object's value (and dynamic trait, where it has one) is bumped: who is called?
+  LET h == HS(c.post)
       bad == {r \in SetOf(c.regs2) : \E x \in Obj : x # NoVal /\
                 c.probe[r.h][x] # (IF <<"trait", x, "value">> \in Notifying(h, r.e)
                                       \/ (r.e \in Props /\ <<"trait", x, "value">> \in Notifying(h, DepOf(r.e))) THEN 1 ELSE 0)}
-      unreg == {k \in 1..Len(c.probe) : (~\E r \in SetOf(c.regs2) : r.h = k) /\ \E x \in Obj : c.probe[k][x] # 0}
+      xbad == {r \in SetOf(c.regs2) : \E x \in Obj : h.hasx[x] = 1 /\
+                c.xprobe[r.h][x] # (IF <<"trait", x, "extra">> \in Notifying(h, r.e) THEN 1 ELSE 0)}
+      unreg == {k \in 1..Len(c.probe) : (~\E r \in SetOf(c.regs2) : r.h = k) /\ \E x \in Obj : c.probe[k][x] # 0 \/ c.xprobe[k][x] # 0}
   IN (IF bad = {} THEN {} ELSE {"C08-reachability-probe"})
+     \cup (IF xbad = {} THEN {} ELSE {"C08-reachability-probe-dynamic-trait"})
      \cup (IF unreg = {} THEN {} ELSE {"C09-unregistered-handler-called"})
 RegClauses(c) ==       \* observe / unobserve steps; c.regs before, c.regs2 after
   LET cnt == IF HasReg(c, c.m.h) THEN RegOf(c, c.m.h).n ELSE 0 IN
   IF c.m.t = "observe"
-  THEN IF Fails(c.pre, c.m.e)
+  THEN IF Fails(HS(c.pre), c.m.e)
        THEN (IF c.exc = "" THEN {"C09-failing-registration-accepted"} ELSE {})
             \cup (IF c.census2 # c.census1 THEN {"C09-failed-registration-left-notifiers"} ELSE {})
        ELSE (IF c.exc # "" THEN {"C09-registration-raised"} ELSE {})
@@ -62,20 +69,20 @@ RegClauses(c) ==       \* observe / unobserve steps; c.regs before, c.regs2 afte
 \* (an object lacking a required trait has been linked into an observed path).  The framework raises
 \* from the mutation itself; the statement of C08 assumes expressions that remain applicable.
 \* The observed properties of the root are permanent registrations of their dependency expressions.
-Inapplicable(c) == \/ \E r \in SetOf(c.regs) : Fails(c.post, r.e) \/ Fails(c.pre, r.e)
-                   \/ \E p \in Props : Fails(c.post, DepOf(p)) \/ Fails(c.pre, DepOf(p))
+Inapplicable(c) == \/ \E r \in SetOf(c.regs) : Fails(HS(c.post), r.e) \/ Fails(HS(c.pre), r.e)
+                   \/ \E p \in Props : Fails(HS(c.post), DepOf(p)) \/ Fails(HS(c.pre), DepOf(p))
 \* C12: a read of an observed property.  c.ret: the value read; c.runs: getter runs during the read; c.since: the
 \* mutations <<pre-heap, m>> performed since the previous read of the same property (c.first = 1: no previous read)
 ReadClauses(c) ==
   LET p == c.m.e
-      changed == \E k \in 1..Len(c.since) : Relevant(c.since[k].pre, p, c.since[k].m) /\ MayNotify(c.since[k].pre, c.since[k].m)
+      changed == \E k \in 1..Len(c.since) : Relevant(HS(c.since[k].pre), p, c.since[k].m) /\ MayNotify(HS(c.since[k].pre), c.since[k].m)
   IN (IF c.ret = PropValue(c.post, p) THEN {} ELSE {"C12-stale-read"})
      \cup (IF c.runs > 1 THEN {"C12-getter-ran-more-than-once"} ELSE {})
      \cup (IF p = "csnap" /\ c.first = 0 /\ ~changed /\ c.runs # 0 THEN {"C12-cached-getter-ran-without-relevant-change"} ELSE {})
 Clauses(c) ==
   IF c.m.t = "read" THEN ReadClauses(c) ELSE
   \* the pool is replaced by a pickle / deep copy of itself: same heap, dynamic registrations gone
-  IF c.m.t = "copy" THEN (IF HeapEq(c.pre, c.post) THEN {} ELSE {"C12-copy-changed-state"})
+  IF c.m.t = "copy" THEN (IF HeapEq(HS(c.pre), HS(c.post)) THEN {} ELSE {"C12-copy-changed-state"})
                           \cup (IF c.exc = "" /\ c.rets[1] = PropValue(c.post, "csnap") /\ c.rets[2] = PropValue(c.post, "chv")
                                 THEN {} ELSE {"C12-stale-read-on-copy"})
                           \cup ProbeClauses(c) ELSE
@@ -84,7 +91,7 @@ Clauses(c) ==
   \* the owner of a bound-method handler was collected: from now on that handler is never called (c.regs2 omits it)
   IF c.m.t = "drop_owner" THEN (IF c.exc = "" /\ c.alive = 0 THEN {} ELSE {"C09-handler-owner-kept-alive"}) \cup ProbeClauses(c) ELSE
   IF c.m.t \notin {"observe", "unobserve"} /\ Inapplicable(c) THEN {} ELSE
-  LET loop == c.m.t \in {"child", "kidsassign", "kids", "dassign", "d"} /\ OnCycle(c.pre, c.m.x)
+  LET loop == c.m.t \in {"child", "kidsassign", "kids", "dassign", "d", "sassign", "s", "dlassign", "dl", "dlin"} /\ OnCycle(HS(c.pre), c.m.x)
       base == (IF c.m.t \in {"observe", "unobserve"} THEN RegClauses(c) ELSE MutClauses(c))
               \cup ProbeClauses(c)
               \cup (IF c.regs2 = <<>> /\ c.dropped = 0 /\ c.census2 # c.census0 THEN {"C09-notifiers-not-back-to-baseline"} ELSE {})
